@@ -172,6 +172,20 @@ def r3_cache_filled_from_current_tables(ctx):
                 else:
                     why = f"cached value `{P.un(v.args[1])}` is not derived from self._methods under the lock"
             ctx.ob("C18.R3", inst, MF, s.lineno, ok, why)
+    # ... and the other way round: the snapshot says which hierarchy the cached answers were found
+    # under, so it moves only where the cache is emptied.  Moving it while entries stay makes every
+    # entry found under the previous hierarchy pass the staleness test of the new one.
+    _RESETS = ("self._methods", "lmap.EMPTY", "lmap.map({})", "lmap.PersistentMap.empty()")
+    for m in P.all_methods(cls):
+        if m.name == "__init__":
+            continue
+        for s, a in P.self_attr_stores(m):
+            if a != "_cached_hierarchy":
+                continue
+            emptied = any(a2 == "_cache" and getattr(s2, "value", None) is not None and P.un(s2.value) in _RESETS for s2, a2 in P.self_attr_stores(m))
+            ctx.ob("C18.R3", f"{MF}::MultiFunction.{m.name}::{P.un(s)} moves with a cache reset", MF, s.lineno, emptied,
+                   "" if emptied else f"`{P.un(s)}` in {m.name} moves the hierarchy snapshot while the cached answers stay: an answer found under the previous hierarchy is served as fresh after derive/underive",
+                   witness="(derive ::a ::p) (mm ::a) caches p's method; (underive ::a ::p) then one call with another dispatch value; (mm ::a) still runs p's method")
     # the reset stores the cache too: every caller of a function that stores to self._cache without
     # taking the lock itself must hold the lock -- otherwise a reset can slip in between a locked
     # search against the old hierarchy and its store, and the stale answer lands in the fresh cache
@@ -200,12 +214,37 @@ def r4_hierarchy_by_reference(ctx):
             txt = P.un(s.value)
             ok = ".deref()" not in txt and ".value" not in txt
             ctx.ob("C18.R4", f"{MF}::MultiFunction.__init__::{P.un(s)}", MF, s.lineno, ok, "" if ok else "the hierarchy is captured by value at construction: later derive/underive are invisible")
-    isa = P.methods(cls).get("_is_a")
-    if isa is None:
-        raise AnalysisError("anchor vanished: MultiFunction._is_a")
-    txt = P.un(isa)
-    ok = "self._hierarchy.deref()" in txt and "_cached_hierarchy" not in txt
-    ctx.ob("C18.R4", f"{MF}::MultiFunction._is_a::uses-live-hierarchy", MF, isa.lineno, ok, "" if ok else "_is_a does not consult the live hierarchy value")
+    # every isa? question is asked about the live value of the reference: either dereferenced at the
+    # question, or one dereference taken by the search and handed down (parameter / local)
+    methods = P.methods(cls)
+
+    def live(m, e, depth=0):
+        t = P.un(e)
+        if t == "self._hierarchy.deref()":
+            return True
+        if not isinstance(e, ast.Name) or depth > 4:
+            return False
+        params = [a.arg for a in m.args.args]
+        if e.id in params:
+            idx = params.index(e.id) - 1
+            sites = [(m2, c) for m2 in P.all_methods(cls) for c in P.calls(m2) if P.un(c.func) == f"self.{m.name}"]
+            if not sites:
+                return False
+            for m2, c in sites:
+                arg = c.args[idx] if idx < len(c.args) else next((k.value for k in c.keywords if k.arg == e.id), None)
+                if arg is None or not live(m2, arg, depth + 1):
+                    return False
+            return True
+        assigns = [s for s in ast.walk(m) if isinstance(s, ast.Assign) and any(isinstance(t2, ast.Name) and t2.id == e.id for t2 in s.targets)]
+        return bool(assigns) and all(live(m, s.value, depth + 1) for s in assigns)
+
+    questions = [(m, c) for m in P.all_methods(cls) for c in P.calls(m) if P.un(c.func) == "self._isa.value"]
+    if not questions:
+        raise AnalysisError("anchor vanished: MultiFunction no longer asks self._isa.value(hierarchy, tag, parent)")
+    for m, c in questions:
+        ok = bool(c.args) and live(m, c.args[0])
+        ctx.ob("C18.R4", f"{MF}::MultiFunction.{m.name}::isa? is asked about the live hierarchy", MF, c.lineno, ok,
+               "" if ok else f"`{P.un(c)}`: the hierarchy argument is not (a copy handed down from) self._hierarchy.deref() -- a derive/underive made since is invisible to the search")
     defs = L.top_defs(ctx.lisp(CORE))
     for name in ("derive", "underive"):
         d = defs.get(name)
@@ -800,6 +839,17 @@ def r7_isa_ancestors_default_shapes(ctx):
            "" if len(ctor[0].items) >= 5 and ":hierarchy" in ctor[0].items[4].text() else "the :hierarchy option no longer reaches the MultiFunction")
 
 
+_SNAPSHOT_EDITS = [
+    {"file": MF, "old": "    def _is_a(self, tag: T, parent: T) -> bool:", "new": "    def _is_a(self, hierarchy, tag: T, parent: T) -> bool:"},
+    {"file": MF, "old": "        return bool(self._isa.value(self._hierarchy.deref(), tag, parent))", "new": "        return bool(self._isa.value(hierarchy, tag, parent))"},
+    {"file": MF, "old": "    def _precedes(self, tag: T, parent: T) -> bool:", "new": "    def _precedes(self, hierarchy, tag: T, parent: T) -> bool:"},
+    {"file": MF, "old": "self._is_a(tag, parent)", "new": "self._is_a(hierarchy, tag, parent)"},
+    {"file": MF, "old": "            best_key: T | None = None\n", "new": "            hierarchy = self._hierarchy.deref()\n            best_key: T | None = None\n"},
+    {"file": MF, "old": "self._is_a(key, method_key)", "new": "self._is_a(hierarchy, key, method_key)"},
+    {"file": MF, "old": "self._precedes(method_key, best_key)", "new": "self._precedes(hierarchy, method_key, best_key)", "count": "all"},
+    {"file": MF, "old": "self._precedes(best_key, method_key)", "new": "self._precedes(hierarchy, best_key, method_key)"},
+]
+
 SELFTEST = [
     {"name": "cache reset for a new hierarchy without the lock (the repaired defect)", "file": MF, "expect": "C18.R3",
      "old": "            with self._lock:\n                self._reset_cache()\n", "new": "            self._reset_cache()\n"},
@@ -873,6 +923,12 @@ SELFTEST = [
      "old": "        self._cache = self._methods\n        self._cached_hierarchy = self._hierarchy.deref()\n", "new": "        self._cache = self._methods\n"},
     {"name": "cache keeps old entries on reset", "file": MF, "expect": "C18.R3",
      "old": "        self._cache = self._methods\n", "new": "        self._cache = self._cache.update(self._methods)\n"},
+    {"name": "twin: one dereference per search, handed down to _is_a", "expect": None, "edits": _SNAPSHOT_EDITS},
+    {"name": "the search moves the hierarchy snapshot and keeps the cached answers", "expect": "C18.R3",
+     "edits": _SNAPSHOT_EDITS + [{"file": MF, "old": "                self._cache = self._cache.assoc(key, best_method)\n",
+                                  "new": "                self._cache = self._cache.assoc(key, best_method)\n                self._cached_hierarchy = hierarchy\n"}]},
+    {"name": "the search is handed the snapshot instead of the live hierarchy", "expect": "C18.R4",
+     "edits": _SNAPSHOT_EDITS + [{"file": MF, "old": "            hierarchy = self._hierarchy.deref()\n", "new": "            hierarchy = self._cached_hierarchy\n"}]},
     {"name": "hierarchy captured by value", "file": MF, "expect": "C18.R4",
      "old": "        return bool(self._isa.value(self._hierarchy.deref(), tag, parent))", "new": "        return bool(self._isa.value(self._cached_hierarchy, tag, parent))"},
     {"name": "global underive does not write the Var", "file": CORE, "expect": "C18.R4",
